@@ -44,15 +44,16 @@ MapApply(m, c) ==
     [] c.op = "Values" -> Res(m, {m[x] : x \in DOMAIN m})        \* the drivers store pairwise distinct values
 
 \* ---- builtInFunctions/container.go: c.k = function name (string), c.v = identity of the function object, 0 = nil
-\* error classes: "nil" (no error), "invalidKey", "nilElement", "emptyName", "exists"; checks in the order of the Go code
+\* result classes: "nil" (no error) and "err" (refused: unknown key, nil element, empty name, name already there - WHICH reason a
+\* refusal names is not part of the property)
 ContApply(m, c) ==
-  CASE c.op = "Get"     -> Res(m, IF c.k \in DOMAIN m THEN [id |-> m[c.k], err |-> "nil"] ELSE [id |-> 0, err |-> "invalidKey"])
-    [] c.op = "Add"     -> IF c.v = 0 THEN Res(m, "nilElement")
-                           ELSE IF c.k = "" THEN Res(m, "emptyName")
-                           ELSE IF c.k \in DOMAIN m THEN Res(m, "exists")
+  CASE c.op = "Get"     -> Res(m, IF c.k \in DOMAIN m THEN [id |-> m[c.k], err |-> "nil"] ELSE [id |-> 0, err |-> "err"])
+    [] c.op = "Add"     -> IF c.v = 0 THEN Res(m, "err")
+                           ELSE IF c.k = "" THEN Res(m, "err")
+                           ELSE IF c.k \in DOMAIN m THEN Res(m, "err")
                            ELSE Res(With(m, c.k, c.v), "nil")
-    [] c.op = "Replace" -> IF c.v = 0 THEN Res(m, "nilElement")
-                           ELSE IF c.k = "" THEN Res(m, "emptyName")
+    [] c.op = "Replace" -> IF c.v = 0 THEN Res(m, "err")
+                           ELSE IF c.k = "" THEN Res(m, "err")
                            ELSE Res(With(m, c.k, c.v), "nil")
     [] c.op = "Remove"  -> Res(Without(m, c.k), Void)
     [] c.op = "Len"     -> Res(m, Cardinality(DOMAIN m))
